@@ -197,7 +197,7 @@ pub fn enumerate(len: usize, shape: &str, only_first: Option<usize>) -> i32 {
     // goes back to the system when it exits.
     if len >= 4 && only_first.is_none() {
         let exe = match std::env::current_exe() { Ok(e) => e, Err(e) => { println!("error: {e}"); return 2; } };
-        let (mut n, pool_len) = (0u64, 19usize);
+        let (mut n, pool_len) = (0u64, 21usize);
         let mut next = 0usize;
         let mut running: Vec<std::process::Child> = Vec::new();
         loop {
@@ -221,7 +221,7 @@ pub fn enumerate(len: usize, shape: &str, only_first: Option<usize>) -> i32 {
     }
     let pool = ["sw zero, 0(sp)", "sw a0, 0(sp)", "sw t0, 0(sp)", "sw s0, 4(sp)", "sb a1, 0(sp)", "sh a1, 2(sp)", "sb zero, 5(sp)",
         "lw t1, 0(sp)", "lw s0, 4(sp)", "lb t2, 0(sp)", "lhu t2, 4(sp)", "li t0, 7", "mv t0, zero", "addi a0, a0, 1", "mv s0, t1", "mv t0, sp",
-        "addi sp, sp, -4", "addi sp, sp, 4", "sub t0, t0, sp"];
+        "addi sp, sp, -4", "addi sp, sp, 4", "sub t0, t0, sp", "sw t0, -4(sp)", "lw t1, -4(sp)"];
     // one worker per first statement; the remaining len-1 positions are enumerated inside the worker
     let found = std::sync::Mutex::new(None::<String>);
     let total = std::sync::atomic::AtomicU64::new(0);
@@ -240,6 +240,8 @@ pub fn enumerate(len: usize, shape: &str, only_first: Option<usize>) -> i32 {
                     let frame = "main:\njal ra, f\nli a7, 10\necall\nf:\naddi sp, sp, -8\nsw s0, 4(sp)\nsw s1, 0(sp)";
                     let mut p = match shape {
                         // a function that is entered at two labels: called as f (falls through into g) or as g, depending on a0
+                        // the statements surround a call of a function that uses its own frame below the caller's sp
+                        "call" => String::from("main:\njal ra, f\nli a7, 10\necall\ng:\naddi sp, sp, -8\nsw zero, 0(sp)\nsw zero, 4(sp)\nli t0, 99\nli t1, 98\naddi sp, sp, 8\nret\nf:\naddi sp, sp, -12\nsw ra, 8(sp)\nsw s0, 4(sp)\nsw s1, 0(sp)"),
                         "fall" => String::from("main:\nbeqz a0, direct\njal ra, f\nj done\ndirect:\njal ra, g\ndone:\nli a7, 10\necall\nf:\naddi sp, sp, -8"),
                         _ => String::from(frame),
                     };
@@ -250,6 +252,7 @@ pub fn enumerate(len: usize, shape: &str, only_first: Option<usize>) -> i32 {
                             "loop" if k == 0 => p.push_str("\nloop:"),
                             "while" if k == 0 => p.push_str("\nloop:\nbeqz a0, done"),
                             "fall" if k == 1 => p.push_str("\naddi sp, sp, 8\ng:\naddi sp, sp, -8"),
+                            "call" if k == 1 => p.push_str("\njal ra, g"),
                             _ => {}
                         }
                         if k + 1 == len && len >= 2 {
@@ -262,7 +265,7 @@ pub fn enumerate(len: usize, shape: &str, only_first: Option<usize>) -> i32 {
                         }
                         p.push('\n'); p.push_str(st);
                     }
-                    p.push_str(if shape == "fall" { "\naddi sp, sp, 8\nret" } else { "\nret" });
+                    p.push_str(match shape { "fall" => "\naddi sp, sp, 8\nret", "call" => "\nlw ra, 8(sp)\naddi sp, sp, 12\nret", _ => "\nret" });
                     total.fetch_add(1, std::sync::atomic::Ordering::Relaxed);
                     if let Some(w) = check_program(&p) { let mut f = found.lock().unwrap(); if f.is_none() { *f = Some(w); } return; }
                     let mut k = 0;
@@ -319,6 +322,10 @@ pub fn search(v: &serde_json::Value) -> i32 {
         "main:\nli a0, 2\njal ra, h\nmv t0, a0\nli a0, 0\njal ra, h\nmv t1, a0\nli a7, 10\necall\nh:\nbeqz a0, zero_case\nli a0, 10\nret\nzero_case:\nli a0, 20\nret",
         "main:\nli s2, 1\nli t0, 0\nli t1, 3\nloop:\nmv a0, t0\njal ra, k\naddi s2, s2, 1\nli t1, 3\naddi t0, a0, 1\nblt t0, t1, loop\nmv t2, s2\nli a7, 10\necall\nk:\nret",
         "addi sp, sp, -4\nsw zero, 0(sp)\nsw a0, 0(sp)\nlw t1, 0(sp)\naddi sp, sp, 4",
+        // a slot below sp does not survive a call of a function that uses its own frame
+        "main:\nli t0, 5\nsw t0, -4(sp)\njal f\nlw t1, -4(sp)\nli a7, 10\necall\nf:\naddi sp, sp, -4\nsw zero, 0(sp)\naddi sp, sp, 4\nret",
+        // what holds on a path falling into a function entry does not hold for a caller (gp is neither saved nor clobbered by convention)
+        "main:\nli gp, 7\nli a0, 1\nbeqz a0, pre\njal f\nli a7, 10\necall\npre:\nli gp, 1\nf:\naddi a1, gp, 0\nret",
         "main:\nbeqz a0, direct\njal ra, f\nj done\ndirect:\njal ra, g\ndone:\nli a7, 10\necall\nf:\nli t0, 7\nsw t0, -4(sp)\ng:\naddi sp, sp, -4\nlw t1, 0(sp)\naddi a0, t1, 1\naddi sp, sp, 4\nret",
         "main:\njal ra, f\nli a7, 10\necall\nf:\naddi sp, sp, -4\nli t0, 7\nsw t0, 0(sp)\nloop:\nlw t1, 0(sp)\nsw a0, 0(sp)\naddi a0, a0, -1\nbnez a0, loop\naddi sp, sp, 4\nret",
         "main:\njal ra, f\nli a7, 10\necall\nf:\naddi sp, sp, -4\nsw s0, 0(sp)\nloop:\nbeqz a0, done\nsw a0, 0(sp)\naddi a0, a0, -1\nj loop\ndone:\nlw s0, 0(sp)\naddi sp, sp, 4\nret",
